@@ -601,28 +601,43 @@ def translate_views(repo, out):
         out.append("def %s_assignSame : HAssign := %s" % (pre, view_assign(same[0][1], cls_name + "::operator=(same type)", ptr, arg(same[0]))))
         out.append("def %s_assignConv : HAssign := %s" % (pre, view_assign(conv[0][1], cls_name + "::operator=(other scalar type)", ptr, arg(conv[0]))))
         out.append("def %s_assignScalar : HAssign := %s" % (pre, view_assign(scal[0][1], cls_name + "::operator=(scalar)", ptr, None, arg(scal[0]))))
-    # transposedView(matrix) = transpose(std::cref(matrix)); transpose(reference_wrapper) wraps the reference_wrapper; the wrapper
-    # resolves it on every access
+    # transposedView(matrix) = transpose(std::cref(matrix)): a prvalue reference_wrapper selects the generic transpose(Matrix&&)
+    # (a reference_wrapper has no member transposed()), which moves it into TransposedMatrixWrapper<reference_wrapper<const M>>;
+    # a const lvalue reference_wrapper selects transpose(const std::reference_wrapper<Matrix>&), which wraps it by class template
+    # argument deduction; the wrapper resolves the reference on every access
     t = squeeze(rd("transpose.hh"))
     m = re.search(r"autotransposedView\(constMatrix&(%s)\)\{(.*?)\}" % ID, t)
     if not m:
         raise TranslateError("transpose.hh: transposedView not found")
     a, body = m.group(1), m.group(2)
-    via_ref = body in ("returntranspose(std::cref(%s));" % a, "returnImpl::TransposedMatrixWrapper(std::cref(%s));" % a)
-    by_copy = body in ("returntranspose(%s);" % a, "returnImpl::TransposedMatrixWrapper<Matrix>(%s);" % a,
-                       "returnImpl::TransposedMatrixWrapper<std::decay_t<Matrix>>(%s);" % a)
-    ref_ok = (re.search(r"autotranspose\(conststd::reference_wrapper<Matrix>&(%s)\)\{returnImpl::TransposedMatrixWrapper\(\1\);\}" % ID, t)
-              and "constWrappedMatrix&wrappedMatrix()const{returnresolveRef(matrix_);}" in t
-              and re.search(r"TransposedMatrixWrapper\(constM&matrix\):matrix_\(matrix\)\{\}", t)
-              and "Mmatrix_;" in t)
-    if via_ref and ref_ok:
+    wrapper_ok = ("constWrappedMatrix&wrappedMatrix()const{returnresolveRef(matrix_);}" in t
+                  and re.search(r"TransposedMatrixWrapper\(M&&matrix\):matrix_\(std::move\(matrix\)\)\{\}", t)
+                  and re.search(r"TransposedMatrixWrapper\(constM&matrix\):matrix_\(matrix\)\{\}", t)
+                  and "Mmatrix_;" in t)
+    generic_ok = re.search(r"autotranspose\(Matrix&&(%s)\)\{returnImpl::TransposedMatrixWrapper<std::decay_t<Matrix>>\(std::forward<Matrix>\(\1\)\);\}" % ID, t)
+    if body == "returntranspose(std::cref(%s));" % a and generic_ok and wrapper_ok:
         hold = ".reference"
-    elif by_copy:
+    elif body == "returnImpl::TransposedMatrixWrapper(std::cref(%s));" % a and wrapper_ok:
+        hold = ".reference"
+    elif body in ("returntranspose(%s);" % a, "returnImpl::TransposedMatrixWrapper<Matrix>(%s);" % a,
+                  "returnImpl::TransposedMatrixWrapper<std::decay_t<Matrix>>(%s);" % a):
         hold = ".copy"
     else:
-        raise TranslateError("transpose.hh: transposedView / transpose(reference_wrapper) / wrappedMatrix outside the grammar: %r" % body)
+        raise TranslateError("transpose.hh: transposedView / transpose(Matrix&&) / wrappedMatrix outside the grammar: %r" % body)
+    m = re.search(r"autotranspose\(conststd::reference_wrapper<Matrix>&(%s)\)\{(.*?)\}" % ID, t)
+    if not m:
+        raise TranslateError("transpose.hh: transpose(const std::reference_wrapper<Matrix>&) not found")
+    a, body = m.group(1), m.group(2)
+    if body == "returnImpl::TransposedMatrixWrapper(%s);" % a and wrapper_ok:
+        rhold = ".reference"
+    elif re.fullmatch(r"returnImpl::TransposedMatrixWrapper<(?:Matrix|std::remove_const_t<Matrix>|std::decay_t<Matrix>)>\(%s(?:\.get\(\))?\);" % a, body):
+        rhold = ".copy"
+    else:
+        raise TranslateError("transpose.hh: transpose(const std::reference_wrapper<Matrix>&) outside the grammar: %r" % body)
     out.append("-- transpose.hh: transposedView(A) refers to A (later changes of A are seen through the view)")
     out.append("def tvHolds : ViewHold := %s" % hold)
+    out.append("-- transpose.hh: transpose(r) for a const lvalue std::reference_wrapper r onto A refers to A as well")
+    out.append("def twRefHolds : ViewHold := %s" % rhold)
     out.append("")
 
 
